@@ -213,25 +213,28 @@ func runSrvCase(o *Oracle, c *SrvCase, rep *Report) {
 	// several clients at once: every response still belongs to its own request
 	if len(c.Batches) > 0 {
 		var wg sync.WaitGroup
-		bad := make([]string, 8)
-		for g := 0; g < 8; g++ {
+		bad := make([]string, 16)
+		for g := 0; g < 16; g++ {
 			wg.Add(1)
 			go func(g int) {
 				defer wg.Done()
-				for k := 0; k < 25; k++ {
+				for k := 0; k < 30; k++ {
 					bi := (g*5 + k) % len(c.Batches)
 					req := &proto.QueryRequest{}
 					var parts []string
 					failed := false
-					for i := range c.Batches[bi] {
-						b := &c.Batches[bi][i]
-						if b.W != nil {
-							failed = true
-							break
+					reps := 1 + (g+k)%40 // responses of very different sizes, some large (long to serialise)
+					for rep := 0; rep < reps && !failed; rep++ {
+						for i := range c.Batches[bi] {
+							b := &c.Batches[bi][i]
+							if b.W != nil {
+								failed = true
+								break
+							}
+							id := int32(100000*(g+1) + 100*rep + i) // ids unique per client and position
+							req.Queries = append(req.Queries, qcaseToProto(&b.Q, id))
+							parts = append(parts, fmt.Sprintf("id=%d", id))
 						}
-						id := int32(1000*(g+1) + i) // ids unique per client
-						req.Queries = append(req.Queries, qcaseToProto(&b.Q, id))
-						parts = append(parts, fmt.Sprintf("id=%d", id))
 					}
 					if failed || len(req.Queries) == 0 {
 						continue
